@@ -703,6 +703,11 @@ func c08DumpDiff(d *c08Dump, w *c08World) string {
 }
 
 func c08CrashBody(c *vk.Ctx, cs c08CrashCase) {
+	// T0 only keeps parent and child consistent within one run; a saved case is replayed later, when
+	// bundles created around the old T0 (lifetime 1 h) would have expired: re-base it
+	if time.Since(time.Unix(0, cs.T0*int64(time.Millisecond))) > 10*time.Minute {
+		cs.T0 = time.Now().UnixNano() / int64(time.Millisecond)
+	}
 	dir := c08Scratch()
 	defer os.RemoveAll(dir)
 	opsJSON, _ := json.Marshal(cs.Ops)
